@@ -5,6 +5,7 @@ import (
 	"fmt"
 	"math/big"
 	"sync"
+	"sync/atomic"
 	"time"
 
 	"verifharness/internal/asm"
@@ -74,8 +75,9 @@ func cmdRace(args []string) error {
 	c.fs.Parse(args)
 	r := rng.New(c.seed)
 	u := progen.DefaultUniverse()
-	u.Precomp = []common.Address{common.BigToAddress(big.NewInt(4)), common.BigToAddress(big.NewInt(2))}
-	installHost()
+	// 0x64-0x66 are one shared table instance per process each: concurrent instances calling them must not meet in it
+	u.Precomp = []common.Address{common.BigToAddress(big.NewInt(4)), common.BigToAddress(big.NewInt(2)), common.BigToAddress(big.NewInt(0x64)), common.BigToAddress(big.NewInt(0x66))}
+	installHostQuiet()
 	// fixed Aspect bindings for the whole concurrent phase (the provider is process-global)
 	impl.InitAspects()
 	impl.Provider.Reset()
@@ -139,6 +141,49 @@ func cmdRace(args []string) error {
 		}(wk)
 	}
 	wg.Wait()
+
+	// context-write storm: every worker is its own caller and writes its own address through 0x66 from fresh EVM instances;
+	// the host must see every write under the caller that made it (the precompile tables hold ONE instance per process)
+	{
+		var bad atomic.Int64
+		var firstBad atomic.Value
+		actypes.SetAspectContext = func(ctx context.Context, a common.Address, key string, value []byte) error {
+			if len(value) == 20 && common.BytesToAddress(value) != a {
+				if bad.Add(1) == 1 {
+					firstBad.Store(fmt.Sprintf("write of caller %x reached the host under %x", value[17:], a[17:]))
+				}
+			}
+			return nil
+		}
+		iters := 40 + 4*c.n
+		ctxTo := common.BigToAddress(big.NewInt(0x66))
+		var swg sync.WaitGroup
+		for wk := 0; wk < workers; wk++ {
+			swg.Add(1)
+			go func(wk int) {
+				defer swg.Done()
+				me := common.BigToAddress(big.NewInt(int64(0xaa0000 + wk)))
+				payload := encodeKV([]byte("k"), me.Bytes())
+				for k := 0; k < iters; k++ {
+					env := impl.NewEnv(impl.Opts{Fork: "Cancun"})
+					to := ctxTo
+					env.Prepare(&to)
+					impl.Guard(func() {
+						env.EVM.Call(context.Background(), vm.AccountRef(me), to, payload, 100000, big.NewInt(0))
+					})
+				}
+			}(wk)
+		}
+		swg.Wait()
+		installHostQuiet()
+		cs := raceCase{Idx: len(cases), Kind: "context-write-storm", Fork: "Cancun", Result: "attributed"}
+		if n := bad.Load(); n > 0 {
+			cs.Result = "misattributed"
+			cs.Oracle = append(cs.Oracle, fmt.Sprintf("C17: %d of %d context writes made concurrently by %d EVM instances were attributed to another instance's caller (%v)", n, iters*workers, workers, firstBad.Load()))
+		}
+		cases = append(cases, cs)
+		stats["context-write-storm"] = iters * workers
+	}
 
 	// Cancel from another goroutine while a loop (with nested calls) is running
 	loopAddr, innerAddr := u.Contracts[0], u.Contracts[1]
